@@ -394,21 +394,34 @@ def run_program_case(case, tier):
                     eng = Engine(prog, {}, {}, max_states=50000)
                     dist = eng.run(N)[-1]
                     names = eng.vars
-                    ref_law = {}
-                    for st, p in dist.items():
-                        key = tuple(sorted((v, round(float(x), 9)) for v, x in zip(names, st)))
-                        ref_law[key] = ref_law.get(key, 0.0) + float(p)
-                    # marginal law of each sample must be the exact law (and the samples are independent: product law)
-                    sim_law = {}
+                    ref_states = [([float(x) for x in st], float(p)) for st, p in dist.items()]
+                    # the simulator works with floats: states are matched to the exact reference states with a tolerance
+                    # (exact rounding of float keys is fragile), probabilities are accumulated per matched reference state
+                    acc = [0.0] * len(ref_states)
+                    unmatched = None
                     for key, p in law.items():
-                        kk = tuple((k, v) for k, v in key[-1] if k in names)   # the LAST sample of the call
-                        sim_law[kk] = sim_law.get(kk, 0.0) + p
-                    for key in set(ref_law) | set(sim_law):
-                        res["comparisons"] += 1
-                        if not close(ref_law.get(key, 0.0), sim_law.get(key, 0.0), 1e-9):
-                            res["violations"].append({"kind": "induced-law-differs", "key": None,
-                                                      "detail": f"state {key} after {N} iterations: simulated probability {sim_law.get(key, 0.0)} vs exact {ref_law.get(key, 0.0)}"})
-                            break
+                        last = dict(key[-1])           # the LAST sample of the call
+                        vec = [last.get(v) for v in names]
+                        hit = None
+                        for j, (rv, _) in enumerate(ref_states):
+                            if all(a is not None and close(a, b, 1e-7) for a, b in zip(vec, rv)):
+                                hit = j
+                                break
+                        if hit is None:
+                            if p > 1e-12:
+                                unmatched = (vec, p)
+                        else:
+                            acc[hit] += p
+                    res["comparisons"] += len(ref_states)
+                    if unmatched is not None:
+                        res["violations"].append({"kind": "induced-law-differs", "key": None,
+                                                  "detail": f"state {dict(zip(names, unmatched[0]))} after {N} iterations has simulated probability {unmatched[1]} but is not reachable under the reference semantics"})
+                    else:
+                        for (rv, rp), sp in zip(ref_states, acc):
+                            if not close(rp, sp, 1e-9):
+                                res["violations"].append({"kind": "induced-law-differs", "key": None,
+                                                          "detail": f"state {dict(zip(names, rv))} after {N} iterations: simulated probability {sp} vs exact {rp}"})
+                                break
                 except (Unsupported, CapExceeded, DomainError):
                     pass
         res["nontrivial"] = paths >= 2 or ncalls >= 1
